@@ -150,7 +150,7 @@ func (r *Decoder) parseRoot() error {
 				continue
 			}
 
-			tokenString := token.(inspectjson.StringToken)
+			tokenString, ok := token.(inspectjson.StringToken)
 			if !ok {
 				return fmt.Errorf("unexpected token: %v", token.GetGrammarName())
 			}
@@ -213,7 +213,7 @@ func (r *Decoder) parseRoot() error {
 						continue
 					}
 
-					nameTokenString := nameToken.(inspectjson.StringToken)
+					nameTokenString, ok := nameToken.(inspectjson.StringToken)
 					if !ok {
 						return fmt.Errorf("unexpected token: %v", nameToken.GetGrammarName())
 					}
